@@ -462,8 +462,8 @@ NSHARDS = 16
 
 
 def shards(tier, seed):
-    cnt = 160 if tier == "quick" else 9000
-    out = [{"name": f"rand{i}", "kind": "rand", "i": i, "count": cnt, "budget_s": 100 if tier == "quick" else 1500}
+    cnt = 160 if tier == "quick" else 40000
+    out = [{"name": f"rand{i}", "kind": "rand", "i": i, "count": cnt, "budget_s": 100 if tier == "quick" else 3600}
            for i in range(NSHARDS)]
     out.append({"name": "known-probe", "kind": "probe", "budget_s": 30})
     return out
